@@ -1,7 +1,7 @@
 ---------------------------- MODULE ExportVocab ----------------------------
 (* Serialises the tables of Vocab into work/vocab.json; the harness reads  *)
 (* only that file - it has no second copy of names, classes or levels.     *)
-EXTENDS Lexer, Json, IOUtils
+EXTENDS Common, Json, IOUtils
 Out == IOEnv.VOCAB_OUT
 Table ==
   [ evaluators |-> Evaluators,
@@ -15,6 +15,7 @@ Table ==
     hasShift   |-> [e \in Evaluators |-> HasShift(e)],
     prec       |-> [k \in AllKinds |-> Prec(k)],
     trig       |-> {k \in AllKinds : Trig(k)},
-    binops     |-> BinOps ]
+    binops     |-> BinOps,
+    common     |-> CommonTable ]
 ASSUME JsonSerialize(Out, Table)
 =============================================================================
